@@ -145,7 +145,7 @@ func (p *c12) pairChecks(x *res, a, b string, ctx *runner.Ctx) {
 			x.viol("runtime-panic", site, fmt.Sprintf("%s with n=%s :v=%s: panic %s", kind, a, b, msg), map[string]interface{}{"a": a, "b": b, "kind": kind})
 			continue
 		}
-		if want.Unsure || want.Reject {
+		if want.Unsure || want.Reject || (want.OrReject && got == "reject") {
 			continue // result does not fit 38 digits / exponent range: reject or anything admitted
 		}
 		if got != "ok" {
